@@ -23,7 +23,7 @@ WORKERS = {"quick": 4, "thorough": 16}
 CONTEXTS = ["bare", "params", "photos", "photos+params", "wrapped", "extended-daughters", "extended-params", "space-before-semicolon"]
 REQUIRED = {**{f"context:{c}": 135 for c in CONTEXTS}, "published-name-in-all-contexts": 1, "prefix-pairs-all": 1, "published-after-user-registration": 135,
             "user-name": 200, "user-name:special-char:.": 3, "user-name:special-char:+": 3, "user-name:special-char:*": 3, "user-name:special-char:(": 3,
-            "user-name:ends-in-nonword": 5, "user-name:extends-published": 20, "user-name:prefix-of-published": 20, "registration:several-calls": 20, "registered-names-second-parse": 20, "grammar-accessed-before-registration": 10,
+            "user-name:ends-in-nonword": 5, "user-name:extends-published": 20, "user-name:prefix-of-published": 20, "registration:several-calls": 20, "registered-names-second-parse": 20, "grammar-accessed-before-registration": 10, "crlf-text": 10,
             "near-miss-rejected": 300, "near-miss:dot-replaced": 3, "near-miss:alias-misspelled": 5, "near-miss:alias-of-an-earlier-file": 5, "near-miss:registered-on-another-instance": 20, "alias-name-extends-model": 20}
 EXHAUSTIVE_NOTE = "all 135 published names x 8 contexts and all ordered prefix pairs are enumerated across the workers in every run"
 ASSUMPTIONS = ["labels next to model names extend them by letters, digits or '_' only (PHSP-x is, by the language's own tokenisation, PHSP with parameter -x)",
@@ -84,6 +84,9 @@ def labels_of(stmts):
 def check_accept(ctx, stmts, user_calls, label, nontrivial=True):
     um = tuple(x for call in user_calls for x in call)
     text = L.render(stmts)
+    if ctx.rng.random() < 0.3:
+        text = text.replace("\n", "\r\n")        # CRLF line ends (string construction keeps them): the model name may be the last word of its line
+        ctx.hit("crlf-text")
     wit = {"kind": "accept", "text": text, "user_calls": [list(c) for c in user_calls], "label": label}
     ctx.case({"text": text, "calls": [list(c) for c in user_calls]}, nontrivial, "enum" if label != "user" else "gen")
     exp = L.expected(stmts)
@@ -292,7 +295,7 @@ def replay(ctx, w):
     calls = [tuple(c) for c in w["user_calls"]]
     um = tuple(x for c in calls for x in c)
     if w["kind"] == "accept":
-        stmts = L.read(w["text"], L.published_models(), um)
+        stmts = L.read(w["text"].replace("\r\n", "\n"), L.published_models(), um)
         check_accept(ctx, stmts, calls, "replay")
     else:
         try:
